@@ -631,4 +631,100 @@ theorem repCode11_laws : RSLaws repCode11 1 1 where
     · simp [present, List.countP_cons]
     · cases h
 
+
+/-- Bytewise XOR of two shards. -/
+def bxor (a b : Bytes) : Bytes := List.zipWith (· ^^^ ·) a b
+
+theorem u8_xor_cancel_left (a b : UInt8) : a ^^^ (a ^^^ b) = b := by
+  rw [← UInt8.xor_assoc, UInt8.xor_self, UInt8.zero_xor]
+
+theorem u8_xor_cancel_right (a b : UInt8) : (a ^^^ b) ^^^ b = a := by
+  rw [UInt8.xor_assoc, UInt8.xor_self, UInt8.xor_zero]
+
+theorem bxor_length (a b : Bytes) (h : a.length = b.length) : (bxor a b).length = a.length := by
+  simp [bxor, h]
+
+theorem bxor_cancel_left : ∀ (a b : Bytes), a.length = b.length → bxor a (bxor a b) = b
+  | [], [], _ => rfl
+  | [], _ :: _, h => by simp at h
+  | _ :: _, [], h => by simp at h
+  | x :: a, y :: b, h => by
+    have := bxor_cancel_left a b (by simpa using h)
+    simp only [bxor] at this ⊢
+    simp [this, u8_xor_cancel_left]
+
+theorem bxor_cancel_right : ∀ (a b : Bytes), a.length = b.length → bxor (bxor a b) b = a
+  | [], [], _ => rfl
+  | [], _ :: _, h => by simp at h
+  | _ :: _, [], h => by simp at h
+  | x :: a, y :: b, h => by
+    have := bxor_cancel_right a b (by simpa using h)
+    simp only [bxor] at this ⊢
+    simp [this, u8_xor_cancel_right]
+
+/-- A single-parity (XOR) code for two data shards: `(k, p) = (2, 1)`, the smallest codec with
+`k ≥ 2`. It satisfies `RSLaws`: the hypothesis set of the reconstruction theorems is satisfiable
+beyond one data shard. -/
+def xorCode21 : RS :=
+  { parity := fun _ _ d => match d with
+      | [a, b] => [bxor a b]
+      | _ => []
+    recover := fun _ _ S => match S with
+      | [some a, some b, _] => some [a, b, bxor a b]
+      | [some a, none, some c] => some [a, bxor a c, c]
+      | [none, some b, some c] => some [bxor c b, b, c]
+      | _ => none }
+
+theorem xorCode21_laws : RSLaws xorCode21 2 1 where
+  parity_length := by
+    intro d hd
+    match d, hd with
+    | [a, b], _ => rfl
+  parity_size := by
+    intro d s hd hs x hx
+    match d, hd with
+    | [a, b], _ =>
+      simp only [xorCode21, List.mem_singleton] at hx
+      rw [hx, bxor_length a b (by rw [hs a (by simp), hs b (by simp)])]
+      exact hs a (by simp)
+  recover_complete := by
+    intro d S s hd _ hs hsub hpres
+    match d, hd with
+    | [a, b], _ =>
+      have hab : a.length = b.length := by rw [hs a (by simp), hs b (by simp)]
+      simp only [xorCode21, List.cons_append, List.nil_append] at hsub ⊢
+      match S, hsub with
+      | [x, y, z], h =>
+        simp only [SubOf] at h
+        obtain ⟨hx, hy, hz, _⟩ := h
+        rcases hx with rfl | rfl <;> rcases hy with rfl | rfl <;> rcases hz with rfl | rfl
+        · simp [present] at hpres
+        · simp [present] at hpres
+        · simp [present] at hpres
+        · -- b and parity present
+          simp only
+          rw [show bxor (bxor a b) b = a from bxor_cancel_right a b hab]
+        · simp [present] at hpres
+        · -- a and parity present
+          simp only
+          rw [bxor_cancel_left a b hab]
+        · rfl
+        · rfl
+  recover_length := by
+    intro S c h
+    simp only [xorCode21] at h
+    split at h
+    · injection h with h; subst h; rfl
+    · injection h with h; subst h; rfl
+    · injection h with h; subst h; rfl
+    · cases h
+  recover_threshold := by
+    intro S c h
+    simp only [xorCode21] at h
+    split at h
+    · simp [present, List.countP_cons]
+    · simp [present, List.countP_cons]
+    · simp [present, List.countP_cons]
+    · cases h
+
 end Juno.C19
